@@ -54,7 +54,8 @@ def genName (pfx : String) : G String := do
   else return pfx ++ toString n
 
 def argCatalogue : List String :=
-  ["a", "abc", "a b", "", "x,y", "q\"uote", "back\\slash", "é✓", "Args", "1", "struct", "a\\\"b", "tab\tx", "(p)", "[b]", "//c", "/*c*/"]
+  ["a", "abc", "a b", "", "x,y", "q\"uote", "back\\slash", "é✓", "Args", "1", "struct", "a\\\"b", "tab\tx", "(p)", "[b]", "//c", "/*c*/",
+   "C:\\temp\\", "\\", "x\\\\", "\"", "\\\"", "end\\\\\\"]
 
 def genForeignAttr : G Attr := do
   let d ← pickG ["cs::attr", "cs::readonly", "foo::bar", "rust::x::y", "cs::identifier"]
